@@ -29,14 +29,14 @@ pub const NKEYS: u64 = 4;
 
 #[derive(Clone, Copy, Debug, PartialEq, Eq, Hash)]
 pub enum K {
-    A1, A2, AZ, AC, AD, AS, AR, AI, AB, AG, AA, AP, AF, A0,
+    A1, A2, AZ, AC, AD, AS, AR, AI, AB, AG, AA, AP, AF, A0, AM, AN,
     BL, BE, BJ, BS,
     PC, PX, PU, SC, SX, RO,
     FO, FF, FP, FB,
 }
-pub const ALL: [(K, &str); 28] = [
+pub const ALL: [(K, &str); 30] = [
     (K::A1, "a1"), (K::A2, "a2"), (K::AZ, "az"), (K::AC, "ac"), (K::AD, "ad"), (K::AS, "as"), (K::AR, "ar"),
-    (K::AI, "ai"), (K::AB, "ab"), (K::AG, "ag"), (K::AA, "aa"), (K::AP, "ap"), (K::AF, "af"), (K::A0, "a0"),
+    (K::AI, "ai"), (K::AB, "ab"), (K::AG, "ag"), (K::AA, "aa"), (K::AP, "ap"), (K::AF, "af"), (K::A0, "a0"), (K::AM, "am"), (K::AN, "an"),
     (K::BL, "bl"), (K::BE, "be"), (K::BJ, "bj"), (K::BS, "bs"),
     (K::PC, "pc"), (K::PX, "px"), (K::PU, "pu"), (K::SC, "sc"), (K::SX, "sx"), (K::RO, "ro"),
     (K::FO, "fo"), (K::FF, "ff"), (K::FP, "fp"), (K::FB, "fb"),
@@ -49,6 +49,8 @@ pub fn kparse(s: &str) -> Option<K> {
 }
 
 pub struct World {
+    /// the free input of the last transaction that was offered with one free and one already-pooled input (op `am`)
+    pub last_free_of_mixed: Option<Utxo>,
     pub f: Factory,
     pub node: Node,
     pub ids: Ids,
@@ -90,6 +92,7 @@ impl World {
         let genesis = f.make_genesis(&issue).await;
         f.remember(&genesis);
         let mut w = World {
+            last_free_of_mixed: None,
             f,
             node,
             ids: Ids::default(),
@@ -555,6 +558,37 @@ impl World {
                 }
                 self.arrive(out, tx, kname(k)).await;
             }
+            K::AM => {
+                // two value-carrying inputs of one owner: one free, one that a pooled transaction spends already (either order)
+                let led = self.after[&tip.hash].clone();
+                let mut pairs: Vec<(Utxo, Utxo)> = vec![];
+                for t in self.pooled() {
+                    for sl in t.from.iter().filter(|sl| sl.amount > 0 && led.contains(&sl.utxoset_key)) {
+                        if let Some(b) = self.outs.iter().find(|u| u.slip.utxoset_key == sl.utxoset_key) {
+                            for a in free.iter().filter(|a| a.owner == b.owner) {
+                                pairs.push((a.clone(), b.clone()));
+                            }
+                        }
+                    }
+                }
+                if pairs.is_empty() {
+                    return;
+                }
+                let (a, b) = r.pick(&pairs).clone();
+                self.last_free_of_mixed = Some(a.clone());
+                let inputs = if r.coin(2, 3) { vec![a, b] } else { vec![b, a] };
+                let tx = self.mk(inputs, World::fee(r), r.coin(1, 2));
+                self.arrive(out, tx, "am").await;
+            }
+            K::AN => {
+                // a plain spend of that free input alone
+                let Some(a) = self.last_free_of_mixed.clone() else { return };
+                if !free.iter().any(|u| u.slip.utxoset_key == a.slip.utxoset_key) {
+                    return;
+                }
+                let tx = self.mk(vec![a], World::fee(r), r.coin(1, 2));
+                self.arrive(out, tx, "an").await;
+            }
             K::AC => match self.conflicting(&tip.hash, r) {
                 Some(tx) => self.arrive(out, tx, "ac").await,
                 None => return,
@@ -775,6 +809,7 @@ pub fn witnesses() -> Vec<(&'static str, Vec<K>)> {
         ("stale-after-side-block", vec![K::PU, K::A1, K::SC, K::AP]),
         // own block rejected: transactions re-inserted without reservations; a conflicting one is accepted; bundling loses both
         ("readd-then-conflict", vec![K::A1, K::FB, K::AC, K::BL]),
+        ("refused-mixed-transaction-keeps-nothing-reserved", vec![K::A1, K::AM, K::AN, K::BL, K::A1, K::A1, K::AM, K::AN, K::AM, K::AN]),
         // the same through peer inputs only: an issuance-typed transaction makes the node's own block invalid
         ("issuance-poisons-bundle", vec![K::A1, K::AI, K::BL, K::AC, K::BL]),
         // a transaction listing one output twice passes validation; Block::create then fails after draining the pool
@@ -873,7 +908,7 @@ pub fn run(seed: u64, tier: &str, outdir: &str) {
     }
     cases.extend(corpus_cases());
     // exhaustive A: every sequence of `depth` ops over a 12-letter alphabet from the bare state (genesis only)
-    let small = [K::A2, K::AC, K::AP, K::BL, K::PC, K::PX, K::FB, K::SC, K::RO, K::AI, K::AA, K::BE];
+    let small = [K::A2, K::AC, K::AM, K::AN, K::AP, K::BL, K::PC, K::PX, K::FB, K::SC, K::RO, K::AI, K::AA, K::BE];
     let depth = if thorough { 4 } else { 3 };
     let mut seqs: Vec<Vec<K>> = vec![vec![]];
     for _ in 0..depth {
@@ -895,7 +930,7 @@ pub fn run(seed: u64, tier: &str, outdir: &str) {
     let prefix = [K::PU, K::A2, K::A1];
     let mut nb = 0;
     if thorough {
-        let mid = [K::A2, K::AC, K::AP, K::BL, K::PC, K::PX, K::FB, K::SC, K::SX, K::RO, K::AI, K::AA, K::BE, K::FO];
+        let mid = [K::A2, K::AC, K::AM, K::AN, K::AP, K::BL, K::PC, K::PX, K::FB, K::SC, K::SX, K::RO, K::AI, K::AA, K::BE, K::FO];
         for a in mid.iter() {
             for b in mid.iter() {
                 for c in mid.iter() {
@@ -916,8 +951,8 @@ pub fn run(seed: u64, tier: &str, outdir: &str) {
         }
     }
     // random longer sequences over the whole alphabet (weighted)
-    let weights: [(K, u64); 28] = [
-        (K::A1, 10), (K::A2, 8), (K::AZ, 3), (K::AC, 8), (K::AD, 4), (K::AS, 3), (K::AR, 4), (K::AI, 2), (K::AB, 2), (K::AG, 1), (K::AA, 2), (K::AP, 6), (K::AF, 3), (K::A0, 2),
+    let weights: [(K, u64); 30] = [
+        (K::A1, 10), (K::A2, 8), (K::AZ, 3), (K::AC, 8), (K::AD, 4), (K::AS, 3), (K::AR, 4), (K::AI, 2), (K::AB, 2), (K::AG, 1), (K::AA, 2), (K::AP, 6), (K::AF, 3), (K::A0, 2), (K::AM, 5), (K::AN, 5),
         (K::BL, 8), (K::BE, 5), (K::BJ, 2), (K::BS, 1),
         (K::PC, 6), (K::PX, 6), (K::PU, 4), (K::SC, 4), (K::SX, 3), (K::RO, 5),
         (K::FO, 3), (K::FF, 3), (K::FP, 2), (K::FB, 5),
